@@ -9,6 +9,7 @@ from typing import (
     Any,
     ForwardRef,
     Generic,
+    Literal,
     NamedTuple,
     TypeVar,
     Union,
@@ -66,6 +67,8 @@ def _resolve_type(type_: Any, memo: TypeCheckMemo) -> Any:
     if isinstance(type_, ForwardRef):
         return _evaluate_forwardref(type_, memo)
     origin = get_origin(type_)
+    if origin is Literal:
+        return type_  # the arguments are values, not types: `Literal["a"]` is not a forward reference
     if origin:
         args = get_args(type_)
         if origin is Annotated:
@@ -196,6 +199,16 @@ def _handle_generic_types(
     if required_origin is Annotated:
         required_primary, *_ = get_args(required_type)
         return is_type_compatible(incoming_type, required_primary, memo)
+
+    # `Literal[...]`: the arguments are values, not types
+    if incoming_origin is Literal or required_origin is Literal:
+        if incoming_origin is not Literal or required_origin is not Literal:
+            return False
+        required_values = get_args(required_type)
+        return all(
+            any(type(v) is type(w) and v == w for w in required_values)
+            for v in get_args(incoming_type)
+        )
 
     # Handle generic types
     if incoming_origin and required_origin:
